@@ -126,5 +126,5 @@ def run(chk):
     # ---------------------------------------------------------------- R14-table
     fids = [f for f in prog.reachable(["sort::sort"]) if prog.bodies[f].file == "a2lfile/src/sort.rs"]
     diag.compare(chk, "R14-table", "sort", sortrules.sort_table(prog, fids), "uid/offset assignments and (sort) calls reachable from sort::sort with their control predicates, compared with the reviewed table", floor=20,
-                 fn_filter=lambda fn: fn in {mir.strip_generics(f) for f in fids})
+                 fn_filter=lambda fn: fn in {re.sub(r"\{closure#\d+\}", "{closure}", mir.strip_generics(f)) for f in fids} or fn.split("::{closure}")[0] in {mir.strip_generics(f) for f in fids})
     chk.assumptions += ["std's slice::sort_by is a stable permutation", "not decided: reload order and second-sort idempotence (runtime)"]
